@@ -6,6 +6,7 @@
 package probe
 
 import (
+	"bytes"
 	"encoding/base64"
 	"encoding/json"
 	"errors"
@@ -33,6 +34,7 @@ type Script struct {
 	PanicWith  string              `json:"panic_with,omitempty"`  // "" (a string), "error", "runtime", "abort" (http.ErrAbortHandler)
 	EchoBody   bool                `json:"echo_body,omitempty"`
 	PauseMs    int                 `json:"pause_ms,omitempty"` // sleep after every chunk (keeps the handler in flight)
+	Copy       bool                `json:"copy,omitempty"`     // send every chunk with io.Copy from a plain reader, the way a file is sent
 }
 
 type Result struct {
@@ -169,7 +171,12 @@ func (h handler) ServeHTTP(w http.ResponseWriter, r *http.Request) (int, error) 
 			w.Write(res.Read)
 		}
 		for i, ch := range s.Chunks {
-			w.Write(ch)
+			if s.Copy {
+				// a reader without WriteTo, so that io.Copy takes the writer's ReadFrom if it has one
+				io.Copy(w, struct{ io.Reader }{bytes.NewReader(ch)})
+			} else {
+				w.Write(ch)
+			}
 			if i < len(s.Flush) && s.Flush[i] {
 				if f, ok := w.(http.Flusher); ok {
 					f.Flush()
